@@ -173,7 +173,7 @@ def make_chooser(spec) -> Chooser:
     if m == "trace":
         return Trace(spec.get("choices", ()), make_chooser(spec["then"]) if spec.get("then") else None)
     if m == "linepreempt":
-        return LinePreempt(spec["k"], tuple(spec.get("kinds", ("line",))))
+        return LinePreempt(spec["k"], tuple(spec.get("kinds", ("line",))), spec.get("order", "low"))
     raise ValueError(m)
 
 
@@ -181,7 +181,7 @@ def make_chooser(spec) -> Chooser:
 
 
 class Task:
-    __slots__ = ("id", "name", "sched", "sem", "state", "pred", "deadline", "timed_out", "thread", "exc", "orphan", "kind", "blocked_on")
+    __slots__ = ("id", "name", "sched", "sem", "state", "pred", "deadline", "timed_out", "thread", "exc", "orphan", "kind", "blocked_on", "last_line")
 
     def __init__(self, sched, tid, name):
         self.id = tid
@@ -374,7 +374,10 @@ class Scheduler:
             return self._pick(cur)
         if len(en) == 1:
             return en[0]
-        i = self.chooser.choose(en, cur, self.step)
+        # a task that blocked is not "current" any more: when time advances to an instant at which it and others
+        # become runnable together, the chooser decides among them without favouring the one that blocked last
+        cur_for_choice = cur if (cur is not None and cur.state == "runnable") else None
+        i = self.chooser.choose(en, cur_for_choice, self.step)
         self.trace.append(i)
         self.branching.append(len(en))
         return en[i]
@@ -1204,6 +1207,7 @@ def enable_line_mode(modules) -> int:
             if getattr(_tl, "in_line", False):
                 return None
             _tl.in_line = True
+            t.last_line = (code.co_name, lineno)
             try:
                 s.yield_point("line")
             finally:
@@ -1304,8 +1308,10 @@ class LinePreempt(Chooser):
     of the run (it only runs when nothing else can). Enumerating k gives every 'one long preemption at a source line'
     schedule - the shape of most check-then-act races - in O(lines) runs. Needs Scheduler.on_yield = chooser.on_yield."""
 
-    def __init__(self, k: int, kinds=("line",)):
+    def __init__(self, k: int, kinds=("line",), order: str = "low"):
         self.k = k
+        self.order = order  # which runnable task goes first when the current one cannot continue: "low" / "high" id, or "rand:<seed>"
+        self._rnd = _random_mod.Random(int(order.split(":")[1]) * 100003 + k) if order.startswith("rand") else None
         self.kinds = set(kinds)
         self.n = 0
         self.demoted: set[int] = set()
@@ -1315,6 +1321,7 @@ class LinePreempt(Chooser):
         if kind in self.kinds:
             if self.n == self.k:
                 self.demoted.add(task.id)
+                self.where = (task.name, getattr(task, "last_line", None), round(sched.rel, 3))
             self.n += 1
             self.total = self.n
 
@@ -1323,4 +1330,6 @@ class LinePreempt(Chooser):
         pool = pref or enabled
         if cur is not None and cur in pool:
             return enabled.index(cur)
-        return enabled.index(pool[0])
+        if self._rnd is not None:
+            return enabled.index(pool[self._rnd.randrange(len(pool))])
+        return enabled.index(pool[0] if self.order == "low" else pool[-1])
